@@ -14,6 +14,7 @@ from formulaic.utils.cast import as_columns
 from formulaic.utils.null_handling import drop_rows as drop_nulls
 
 from .base import FormulaMaterializer
+from .types import FactorValues
 
 if TYPE_CHECKING:  # pragma: no cover
     from formulaic.model_spec import ModelSpec
@@ -76,9 +77,10 @@ class PandasMaterializer(FormulaMaterializer):
         if drop_rows:
             values = drop_nulls(values, indices=drop_rows)
         if spec.output == "sparse":
-            return spsparse.csc_matrix(
-                numpy.array(values).reshape((values.shape[0], 1))
-            )
+            if isinstance(values, FactorValues):
+                values = values.__wrapped__
+            values = numpy.array(values)  # (lists have no shape of their own)
+            return spsparse.csc_matrix(values.reshape((values.shape[0], 1)))
         return values
 
     @override
